@@ -1,7 +1,7 @@
 (* C09 proofs.  The generated definitions of Gen.v are unfolded here: an edit of the source that
    changes a comparison, a hook, the slice source or a decision breaks these proofs. *)
 From Coq Require Import ZArith Lia ZifyBool ZifyN.
-From Wz Require Import lib.Bytes lib.BytesFacts C09.Base C09.BaseFacts C09.Gen C09.Model.
+From Wz Require Import lib.Bytes lib.BytesFacts C09.Base C09.BaseFacts C09.Gen C09.Model C09.GenRI.
 Open Scope N_scope.
 
 (* ------------------------------------------------------------------ pins *)
@@ -767,4 +767,79 @@ Lemma max_body_fits D lim sched ri : benign sched = true -> lenN D < lim ->
 Proof.
   intros Hb Hlt. rewrite readall_benign_outcome by auto. cbn [andb]. replace (lim <=? lenN D) with false by lia.
   f_equal. apply takeN_all. lia.
+Qed.
+
+
+(* ------------------------------------------------------------------ the statement-by-statement translation of readinto *)
+Definition embed (b : bytes) (r : cres * ls * und) : rr :=
+  match r with
+  | (CWrite n src, s', u') => RRet (Z.of_N n) (Z.of_N (pos s')) u' (src ++ dropN n b)
+  | (CZero, s', u') => RRet 0 (Z.of_N (pos s')) u' b
+  | (CExn e, s', u') => RRaise e (Z.of_N (pos s')) u' b
+  end.
+
+Lemma len_of_cons x d : truthy (len_of (x :: d)) = true.
+Proof. unfold truthy, len_of. rewrite lenN_cons. lia. Qed.
+
+Lemma tail_eq m (p0 : Z) u x d (bb : bytes) :
+  (if negb (truthy (len_of (x :: d)))
+   then do_on_disconnect m false p0 u bb (fun _ => RRet 0 p0 u bb)
+   else RRet (len_of (x :: d)) (p0 + len_of (x :: d))%Z u bb)
+  = RRet (len_of (x :: d)) (p0 + len_of (x :: d))%Z u bb.
+Proof. rewrite len_of_cons. reflexivity. Qed.
+
+Lemma disc_false m p0 u bb :
+  do_on_disconnect m false p0 u bb (fun _ => RRet 0 p0 u bb) = if m then RRet 0 p0 u bb else RRaise ClientDisconnected p0 u bb.
+Proof. unfold do_on_disconnect, on_disconnect_gen. destruct m; reflexivity. Qed.
+
+Lemma disc_true m p0 u bb :
+  do_on_disconnect m true p0 u bb (fun _ => RRet 0 p0 u bb) = RRaise ClientDisconnected p0 u bb.
+Proof. unfold do_on_disconnect, on_disconnect_gen. destruct m; reflexivity. Qed.
+
+Lemma dropN_zerosN k n : dropN k (zerosN n) = zerosN (n - k).
+Proof.
+  unfold dropN, zerosN. replace (N.to_nat (n - k)) with (N.to_nat n - N.to_nat k)%nat by lia.
+  generalize (N.to_nat n) as a. generalize (N.to_nat k) as c. clear.
+  induction c as [|c IH]; intro a; [rewrite Nat.sub_0_r; reflexivity|].
+  destruct a as [|a]; [reflexivity|]. cbn [repeat skipn Nat.sub]. apply IH.
+Qed.
+
+Lemma readinto_gen_core s u kind b :
+  readinto_gen (is_max s) (Z.of_N (limit s)) (Z.of_N (pos s)) kind u b
+  = embed b (readinto_core ri_slice_fix s u kind (lenN b)).
+Proof.
+  rewrite slice_fix_present, core_eq. unfold readinto_gen, core_spec. cbv zeta.
+  replace (Z.of_N (limit s) - Z.of_N (pos s) <=? 0)%Z with (limit s <=? pos s) by lia.
+  destruct (limit s <=? pos s) eqn:Hex.
+  - unfold do_on_exhausted, on_exhausted_gen, embed. destruct (is_max s); reflexivity.
+  - set (rem := limit s - pos s).
+    assert (Hrem : Z.to_N (Z.of_N (limit s) - Z.of_N (pos s)) = rem) by (unfold rem; lia).
+    destruct (u_has_readinto u).
+    + destruct (len_of b <=? Z.of_N (limit s) - Z.of_N (pos s))%Z eqn:Hfit.
+      * unfold try_readinto. replace (N.min (lenN b) rem) with (lenN b) by (unfold rem, len_of in *; lia).
+        destruct (und_read u (lenN b)) as [[d|] u1]; [|rewrite disc_true; reflexivity].
+        destruct d as [|x d].
+        -- cbn [lenN length N.of_nat app]. unfold len_of, truthy. cbn [lenN length N.of_nat Z.of_N Z.eqb negb].
+           rewrite dropN_0, disc_false. unfold embed. destruct (is_max s); reflexivity.
+        -- rewrite tail_eq. unfold embed, advance, len_of. cbn [pos]. f_equal. lia.
+      * unfold try_readinto, bytearray. rewrite Hrem, lenN_zerosN.
+        replace (N.min (lenN b) rem) with rem by (unfold rem, len_of in *; lia).
+        destruct (und_read u rem) as [[d|] u1]; [|rewrite disc_true; reflexivity].
+        destruct d as [|x d].
+        -- unfold len_of, truthy. cbn [lenN length N.of_nat Z.of_N Z.eqb negb].
+           rewrite disc_false. unfold embed. destruct (is_max s); reflexivity.
+        -- rewrite len_of_cons. unfold slice_assign, take, len_of. rewrite N2Z.id, takeN_app_exact.
+           unfold slice_assign_ok. replace (match kind with KBytearray => true | KMemoryview => lenN (x :: d) =? lenN (x :: d) end)
+             with true by (destruct kind; [reflexivity|symmetry; apply N.eqb_refl]).
+           cbn [negb]. unfold embed, advance. cbn [pos]. f_equal. lia.
+    + unfold try_read. replace (Z.to_N (Z.min (len_of b) (Z.of_N (limit s) - Z.of_N (pos s)))) with (N.min (lenN b) rem)
+        by (unfold rem, len_of; lia).
+      destruct (und_read u (N.min (lenN b) rem)) as [[d|] u1]; [|rewrite disc_true; reflexivity].
+      cbv zeta. unfold slice_assign, slice_assign_ok, len_of at 1. rewrite N2Z.id.
+      replace (match kind with KBytearray => true | KMemoryview => lenN d =? lenN d end)
+        with true by (destruct kind; [reflexivity|symmetry; apply N.eqb_refl]).
+      destruct d as [|x d].
+      * unfold len_of, truthy. cbn [lenN length N.of_nat Z.of_N Z.eqb negb app]. rewrite dropN_0, disc_false.
+        unfold embed. destruct (is_max s); reflexivity.
+      * rewrite tail_eq. unfold embed, advance, len_of. cbn [pos]. f_equal. lia.
 Qed.
